@@ -220,10 +220,19 @@ def shapes(tier):
 
 
 # ------------------------------------------------------------------ builders
-def make(shape, v, mode, steps, inst=None):
+def make(shape, v, mode, steps, inst=None, _share=None):
     """build an instance holding v (or fill the given one); appends the setup expressions to steps;
-    mode 'lit' | 'expr'"""
+    mode 'lit' | 'expr' | 'lit-shared' (equal parts of equal type are ONE ABI object used at several positions,
+    as in `t.set(flag, other, flag)`)"""
     sp = spec(shape)
+    if mode == "lit-shared":
+        mode, _share = "lit", ({} if _share is None else _share)
+    if _share is not None and inst is None:
+        key = (repr(shape), repr(v))
+        if key in _share:
+            return _share[key]
+        inst = sp.new_instance()
+        _share[key] = inst
     if inst is None:
         inst = sp.new_instance()
     if isinstance(shape, str):
@@ -238,10 +247,10 @@ def make(shape, v, mode, steps, inst=None):
         return inst
     k = shape[0]
     if k in ("sarr", "darr"):
-        elems = [make(shape[1], x, mode, steps) for x in v]
+        elems = [make(shape[1], x, mode, steps, _share=_share) for x in v]
         steps.append(inst.set(elems))
         return inst
-    elems = [make(s, x, mode, steps) for s, x in zip(shape[1:], v)]
+    elems = [make(s, x, mode, steps, _share=_share) for s, x in zip(shape[1:], v)]
     steps.append(inst.set(*elems))
     return inst
 
